@@ -89,8 +89,9 @@ impl<T> DualLinkedList<T> {
         self.len += 1;
         let node_ptr: *mut EventNode<T> = &mut *node;
 
-        // From back insert
-        let mut cur: *mut EventNode<T> = &mut *self.tail;
+        // From back insert. Start at the last real node (or the head): the tail sentinel
+        // carries Duration::MAX itself, an event with that timestamp must not end up behind it.
+        let mut cur: *mut EventNode<T> = self.tail.prev;
         loop {
             // SAFTEY:
             // There a two cases
